@@ -7,7 +7,7 @@ Driver operations for the sync models (C06, C07). Core Lean only.
   sync|xsync preload <idx…>                                           headers added to the store before the engine exists
   sync new                                                            p2psync.New on the current store
   sync newpeer <choice> <p> <lastBlock> <candidate 0|1>               events; <choice> = observed sync peer afterwards
-  sync headers <choice> <p> <idx…> | sync inv <choice> <p> <idx…> | sync done <choice> <p> | sync tick <choice> <stale 0|1>
+  sync headers <choice> <p> <idx…> | sync inv <choice> <p> <idx|t<idx>…> (t = non-block entry) | sync done <choice> <p> | sync tick <choice> <stale 0|1>
   xsync new | xsync start <p> <peerHeight> | xsync headers <c> <p> <idx…> | xsync inv <c> <p> <idx…>
   sync|xsync dump | sync state
   node reply <cap> <pos> <stop|0> <loc,…> : <path idx…>                  the conformant node's answer (tree indices)
@@ -72,6 +72,12 @@ def parseList (w : String) : List String := if w = "-" then [] else w.splitOn ",
 def lookupAll (s : S) (ws : List String) : Option (List (Src String)) :=
   ws.mapM fun w => w.toNat?.bind fun i => s.table[i]?
 
+/-- inv entries: `<idx>` = a block inventory with that header's hash, `t<idx>` = a non-block (tx) inventory with it -/
+def invItems (s : S) (ws : List String) : Option (List (Bool × String)) :=
+  ws.mapM fun w =>
+    if w.startsWith "t" then ((w.drop 1).toString.toNat?.bind fun i => s.table[i]?).map fun x => (false, blockHash x)
+    else (w.toNat?.bind fun i => s.table[i]?).map fun x => (true, blockHash x)
+
 def choiceStr (sp : Option Nat) : String :=
   match sp with
   | some p => toString p
@@ -124,8 +130,8 @@ def handle (s : S) : List String → Option (S × String)
     | some st, some p, some xs => some (runEvent s st choice (.headers p xs))
     | _, _, _ => some (s, "bad-args")
   | "sync" :: "inv" :: choice :: p :: idxs =>
-    match s.st, p.toNat?, lookupAll s idxs with
-    | some st, some p, some xs => some (runEvent s st choice (.inv p (xs.map fun x => (true, blockHash x))))
+    match s.st, p.toNat?, invItems s idxs with
+    | some st, some p, some items => some (runEvent s st choice (.inv p items))
     | _, _, _ => some (s, "bad-args")
   | ["sync", "done", choice, p] =>
     match s.st, p.toNat? with
@@ -160,11 +166,11 @@ def handle (s : S) : List String → Option (S × String)
       | none => some (s, "no-peer")
     | _, _ => some (s, "bad-args")
   | "xsync" :: "inv" :: _ :: p :: idxs =>
-    match p.toNat?, lookupAll s idxs with
-    | some p, some xs =>
+    match p.toNat?, invItems s idxs with
+    | some p, some items =>
       match s.xsts.find? (·.1 = p) with
       | some (_, st) =>
-        let r := BHS.SyncExp.handleInv (xcfgOf s) { st with store := s.store } (xs.map fun x => (true, blockHash x))
+        let r := BHS.SyncExp.handleInv (xcfgOf s) { st with store := s.store } items
         some ({ s with store := r.1.store, xsts := s.xsts.map fun e => if e.1 = p then (p, r.1) else e },
           " ; ".intercalate (r.2.map (xactStr p)))
       | none => some (s, "no-peer")
